@@ -50,6 +50,14 @@ def validate_one(flex, workdir, name, rs, topt, lex_seed, budget=200000, keep=Fa
     ctext = open(cf, encoding='latin1').read()
     tl, t, flags = flexrun.table_lines(ctext)
     var = flexrun.var_rules_of(t)
+    extra = set(var) - rs.expected_var_rules()
+    if extra:
+        # flex back-tracks to the end of the head at run time for a rule whose head (or trailing part) has a fixed length
+        res['status'] = 'error'
+        res['detail'] = ('flex treats rule(s) %s as variable trailing context rules, but head or trailing part have a fixed length '
+                         '(no | * + ? {} in them) and no \'|\' action precedes' % sorted(extra))
+        _cleanup(keep, lf, cf)
+        return res
     casef = lf + '.case'
     open(casef, 'w').write('\n'.join(rs.case_lines(var) + tl) + '\n')
     res['flags'] = flags
